@@ -47,7 +47,8 @@ type c16Sc struct {
 	ClockStep  int64      `json:"clock_step"`
 	Prog       *Program   `json:"prog"`
 	Raws       []c16Raw   `json:"raws"`
-	Via        string     `json:"via"` // bytes | disk | loadall
+	Via        string     `json:"via"`                   // bytes | disk | loadall
+	NamePrefix string     `json:"name_prefix,omitempty"` // bytes mode only: every template name gets this prefix (names are opaque keys)
 	WarmB      bool       `json:"warm_b"`
 	Faults     []c16Fault `json:"faults"`
 }
@@ -96,6 +97,9 @@ func (propC16) Gen(seed uint64, ex map[string]bool) interface{} {
 	}
 	sc.Via = pick(r, []string{"bytes", "disk", "disk", "loadall"})
 	sc.WarmB = r.P(50)
+	if sc.Via == "bytes" && r.P(50) {
+		sc.NamePrefix = pick(r, []string{"./", "a//", "d/../", "../", "x/./", " ", "/", "A", "é/"})
+	}
 	nr := r.N(3)
 	for i := 0; i < nr; i++ {
 		raw := c16Raw{Name: pick(r, []string{"raw", "", "dir/x", "n\x00m", "\xff\xfe"}), Kind: "hex",
@@ -197,7 +201,7 @@ func (propC16) Run(scI interface{}) *Outcome {
 	if len(sc.Faults) == 0 {
 		o.Probes["fs_faults_fired"] = 0
 	}
-	flat := func(n string) string { return strings.ReplaceAll(n, "/", "_") }
+	flat := func(n string) string { return sc.NamePrefix + strings.ReplaceAll(n, "/", "_") }
 	srcs := map[string]string{}
 	for _, t := range sc.Prog.Templates {
 		s := t.Src()
